@@ -6,11 +6,18 @@
 2. TLC (Quorum_MC) evaluates Intersect / HonestWitness of spec/Quorum.tla on the extracted table and compares it with the
    closed forms;
 3. Apalache proves the closed-form lemmas for unbounded N, C (any thresholds >= Q(N) intersect in > C peers, ...).
-A violation is an extracted (N, C, function) whose threshold breaks Intersect / HonestWitness."""
+A violation is an extracted (N, C, function) whose threshold breaks Intersect / HonestWitness.
+4. the thresholds speak about signer SETS, the pool's endorseDone / commitDone-fallback run COUNTERS over the entries of
+   CandidateInfo.EndorseSigs: spec/QuorumDistinct.tla states (on the pool model shared with C31/C34) that the counters count
+   DISTINCT peers whatever a peer re-sends (same / other proposer, empty or not, endorsements and commit messages in any
+   order); QuorumDistinct_MC enumerates the re-sending behaviours, TLC checks the invariants, every edge is replayed on a
+   real BlockPool and "done => at least <extracted threshold> distinct recorded signers" is evaluated on the real pool."""
+import json
 import os
 import threading
 
 import vf
+import _vbft as vb
 
 SAN = {"getCommitConsensus": "getCommitConsensus", "getCommitConsensus/spread": "getCommitConsensusSpread",
        "getCommitConsensus/empty": "getCommitConsensusEmpty", "getCommitConsensus/emptyThenClaims": "getCommitConsensusEmptyClaims",
@@ -53,6 +60,163 @@ def fit(table, fn):
     return "unfit"
 
 
+# ------------------------------------------------------------------------------------ part 4: the counters count peers
+# (label, N, bounds record of QuorumDistinct_MC, minimal number of re-sending patterns the replayed paths must contain)
+DISTINCT_QUICK = [("n4-rep", 4, "KN4"), ("n4-long", 4, "KN4long"), ("n4-com", 4, "KN4com"), ("n7-rep", 7, "KN7")]
+DISTINCT_THOROUGH = [("n4-two", 4, "KN4two"), ("n7-two", 7, "KN7two"), ("n6-rep", 6, "KN7"), ("n8-rep", 8, "KN7")]
+DISTINCT_INVS = ["TypeOK", "Inv_OneEntryPerPair", "Inv_CountersCountPeers", "Inv_EndorseDistinct", "Inv_FallbackDistinct",
+                 "Inv_CommitQuorumIntersects", "Inv_EndorseHasHonestWitness"]
+
+
+def distinct_cfg(n, c, kname):
+    return "\n".join(["SPECIFICATION Spec", "CONSTANTS", "  N = %d" % n, "  C = %d" % c, "  EndorserSet <- EndorserSet%d" % n,
+                      "  QM <- QM%d" % n, "  QS <- QS%d" % n, "  TE <- TE%d" % n,
+                      "  SW_Verify = FALSE", "  SW_PerBlock = FALSE", "  SW_Proposer = FALSE", "  K <- %s" % kname,
+                      "VIEW view", "INVARIANTS " + " ".join(DISTINCT_INVS), "CHECK_DEADLOCK FALSE",
+                      "CONSTRAINT InitOut", "ACTION_CONSTRAINT Edge"]) + "\n"
+
+
+def resend_patterns(acts):
+    """re-sending circumstances contained in one replayed path: a peer that endorses (non-empty) p, then q # p, then p again
+    ('flip'), the same endorsement twice in a row ('dup'), an entry claimed for / committed by a peer that has endorsed
+    before ('commit-after-endorse'), a second commit message of one committer ('recommit')."""
+    per, com, found = {}, set(), set()
+    for a in acts:
+        if a["name"] == "FeedEndorse":
+            h = per.setdefault(a["i"], [])
+            if not a["e"]:
+                ne = [x for x in h if not x[1]]
+                if ne and ne[-1][0] == a["p"]:
+                    found.add("dup")
+                if len(ne) >= 2 and ne[-1][0] != a["p"] and any(x[0] == a["p"] for x in ne[:-1]):
+                    found.add("flip")
+            h.append((a["p"], a["e"]))
+        elif a["name"] == "FeedCommit":
+            if a["c"] in com:
+                found.add("recommit")
+            com.add(a["c"])
+            for i in [a["c"]] + [x["i"] for x in a["es"]]:
+                if per.get(i):
+                    found.add("commit-after-endorse")
+                per.setdefault(i, []).append((a["p"], a["e"]))
+    return found
+
+
+def distinct_oracle(te, qs, o):
+    """Looks ONLY at the real pool (its entries and its own decisions).  Returns a list of (key, detail)."""
+    out = []
+    esigs = o["esigs"]
+
+    def signers(p, empty):
+        if empty:
+            return sorted(i + 1 for i, l in enumerate(esigs) if any(x["e"] for x in l))
+        return sorted(i + 1 for i, l in enumerate(esigs) if any(x["p"] == p and not x["e"] for x in l))
+
+    def counted(p, empty):
+        return sum(1 for l in esigs for x in l if (x["e"] if empty else (x["p"] == p and not x["e"])))
+
+    def judge(fn, p, empty, thr):
+        sg, cn = signers(p, empty), counted(p, empty)
+        if len(sg) >= thr:
+            return len(sg) == thr
+        why = "one-peer-counted-several-times" if cn > len(sg) else "fewer-signers-than-extracted-threshold"
+        out.append(("Distinct:%s:%s" % (fn, why),
+                    {"declared": {"proposer": p, "empty": empty}, "distinct_signers": sg, "entries_counted": cn,
+                     "threshold_extracted": thr, "entries": esigs}))
+        return False
+
+    tight_e = tight_c = False
+    if o["ed"]:
+        tight_e = judge("endorseDone", o["edp"], o["ede"], te)
+    if o["cd"] and not o["viaMsgs"]:
+        tight_c = judge("commitDone/sigs", o["cdp"], False, qs)
+    return out, tight_e, tight_c
+
+
+def distinct_part(ctx, binary, res):
+    """res: dict filled with 'infra' (list), 'viol' {key: (detail, replay, count)}, 'cov' (coverage numbers)."""
+    res.update({"infra": [], "viol": {}, "cov": {}})
+    mod, consts = vb.extract_constants(ctx, binary)
+    if not consts:
+        res["infra"].append("distinct-signer part: constants of the pool model could not be extracted")
+        return
+    cfgs = DISTINCT_QUICK + (DISTINCT_THOROUGH if ctx.thorough else [])
+    runs = {}
+
+    def tlc_job(label, n, kname):
+        c = dict(vb.CONFIGS)[n]
+        runs[label] = ctx.tlc("QuorumDistinct_MC", cfg="QuorumDistinct_gen.cfg", workers=1, timeout=2400,
+                              files={"VBFTConst.tla": mod, "QuorumDistinct_gen.cfg": distinct_cfg(n, c, kname)})
+
+    th = [threading.Thread(target=tlc_job, args=j) for j in cfgs]
+    [t.start() for t in th]
+    [t.join() for t in th]
+    stats = {"steps": 0, "drift": 0, "done": 0, "unsound": 0}
+    cov = {"paths": 0, "steps": 0, "states": 0, "edges": 0, "patterns": {}, "endorse_done_states": 0, "fallback_done_states": 0,
+           "tight_endorse": 0, "tight_fallback": 0, "per_config": {}}
+    for label, n, kname in cfgs:
+        r = runs.get(label)
+        if r is None or r.status != "ok":
+            res["infra"].append("TLC QuorumDistinct_MC %s: status=%s violated=%s %s (the invariants are about the SPEC: modelling problem)" % (
+                label, getattr(r, "status", None), getattr(r, "violated", None), getattr(r, "errors", [])[:2]))
+            continue
+        edges, inits = r.prints.get("EDGE", []), r.prints.get("INIT", [])
+        paths, ncov = ctx.cover(edges, inits, max_len=16)
+        if ncov < len({(vf.canon(e["from"]), vf.canon(e["act"]), vf.canon(e["to"])) for e in edges}) or not paths:
+            res["infra"].append("%s: cover misses edges" % label)
+        acts = [[s["act"] for s in p["steps"]] for p in paths]
+        states = [[s["to"] for s in p["steps"]] for p in paths]
+        pats = {}
+        for a in acts:
+            for k in resend_patterns(a):
+                pats[k] = pats.get(k, 0) + 1
+        want = {"KN4": ["flip", "dup"], "KN4long": ["flip", "dup"], "KN7": ["flip", "dup"], "KN4two": ["flip", "dup"],
+                "KN4com": ["commit-after-endorse", "recommit", "dup"], "KN7two": ["flip", "commit-after-endorse"]}[kname]
+        if any(pats.get(k, 0) == 0 for k in want):
+            res["infra"].append("vacuous model run %s: re-sending patterns %s not all generated (%s)" % (label, want, pats))
+        obs = vb.replay_pool(ctx, binary, n, dict(vb.CONFIGS)[n], acts, "distinct-" + label)
+        if obs is None:
+            res["infra"].append("%s: replay on the real BlockPool failed" % label)
+            continue
+        te, qs = consts[n]["TE"], consts[n]["QS"]
+        nv = 0
+        for a_l, o_l in zip(acts, obs):
+            for si, o in enumerate(o_l):
+                found, t_e, t_c = distinct_oracle(te, qs, o)
+                cov["endorse_done_states"] += 1 if o["ed"] else 0
+                cov["fallback_done_states"] += 1 if (o["cd"] and not o["viaMsgs"]) else 0
+                cov["tight_endorse"] += 1 if t_e else 0
+                cov["tight_fallback"] += 1 if t_c else 0
+                for key, detail in found:
+                    nv += 1
+                    replay = {"n": n, "c": dict(vb.CONFIGS)[n], "config": label, "steps": [vb.act_to_feed(x) for x in a_l[:si + 1]]}
+                    detail.update({"N": n, "C": dict(vb.CONFIGS)[n]})
+                    old = res["viol"].get(key)
+                    if old is None:
+                        res["viol"][key] = [detail, replay, 1]
+                    else:
+                        old[2] += 1
+                        if len(replay["steps"]) < len(old[1]["steps"]):
+                            old[0], old[1] = detail, replay
+        # conformance of the real pool with the model pool (content, decisions) on every step
+        vb.check_pool_paths(ctx, n, acts, states, obs, stats)
+        for k, v in pats.items():
+            cov["patterns"][k] = cov["patterns"].get(k, 0) + v
+        cov["paths"] += len(acts)
+        cov["steps"] += sum(len(a) for a in acts)
+        cov["states"] += r.distinct
+        cov["edges"] += len(edges)
+        cov["per_config"][label] = {"N": n, "bounds": kname, "distinct": r.distinct, "edges": len(edges), "paths": len(acts),
+                                    "patterns": pats, "distinctness_violations_on_real_pool": nv}
+        ctx.log("distinct signers %s: TLC %d distinct / %d edges (%.0fs), %d paths replayed, patterns %s, violations %d" % (
+            label, r.distinct, len(edges), r.wall, len(acts), pats, nv))
+    cov["model_drift"] = stats["drift"]
+    if cov["paths"] and not (cov["tight_endorse"] and cov["tight_fallback"]):
+        res["infra"].append("vacuous: the real pool never decided with exactly the threshold number of distinct signers (endorse %d, fallback %d)" % (
+            cov["tight_endorse"], cov["tight_fallback"]))
+    res["cov"] = cov
+
+
 def run(ctx):
     pairs, crypto_max = pairs_for(ctx)
     bins = {}
@@ -67,6 +231,12 @@ def run(ctx):
     table = {}
     nonmono = []
     nrows = 0
+    dres = {}
+    td = None
+    if bins.get("vbft"):
+        # part 4 runs concurrently with the threshold extraction and the proofs
+        td = threading.Thread(target=distinct_part, args=(ctx, bins["vbft"], dres))
+        td.start()
     if bins.get("vbft") and bins.get("ls"):
         fin = os.path.join(ctx.scratch, "thr.in.json")
         vf.write_json(fin, {"pairs": pairs, "cryptoMaxN": crypto_max})
@@ -190,6 +360,17 @@ def run(ctx):
             discharged += 1
         else:
             ctx.infra("Apalache obligation %s: expected %s, got %s\n%s" % (inv, want, a["status"], a.get("out", "")[-800:]))
+    # ---- part 4: the counters behind the thresholds count distinct peers (real BlockPool)
+    if td is not None:
+        td.join()
+        for m in dres.get("infra", []):
+            ctx.infra(m)
+        for key, (detail, replay, cnt) in sorted(dres.get("viol", {}).items()):
+            detail["instances"] = cnt
+            ctx.violation(key, detail, replay)
+        if dres.get("viol"):
+            ctx.samples.append({"distinctness_violation": sorted(dres["viol"])[0], "replay": dres["viol"][sorted(dres["viol"])[0]][1]})
+    dcov = dres.get("cov", {})
     ctx.samples.append({"table_row": {"N": 7, "C": 2, "thresholds": table.get((7, 2))}})
     ctx.samples.append({"fitted_forms": forms})
     ctx.finish("proof", {
@@ -199,7 +380,11 @@ def run(ctx):
         "fitted_forms": forms, "closed_form_exact": exact, "proof_applies_to": covered_by_proof,
         "states": ctx.stats["states"], "transitions": ctx.stats["transitions"],
         "N_max": max([p[0] for p in pairs]), "crypto_N_max": crypto_max,
-    }, ["thresholds are extracted as 'least number of distinct signers accepted' on canonical evidence shapes (proposer distinct from "
+        "distinct_signers": dcov, "traces_validated_against_impl": dcov.get("paths", 0),
+    }, ["the counters of endorseDone / commitDone(fallback) are checked to count distinct peers for re-sending behaviours of one or two "
+        "peers within the bounds of QuorumDistinct_MC (all signatures valid; the commit-message path getCommitConsensus counts a set "
+        "per proposer, its '+1 for the proposer' is C31's finding)",
+        "thresholds are extracted as 'least number of distinct signers accepted' on canonical evidence shapes (proposer distinct from "
         "committers/endorsers); adversarial shapes (double counting, unverified claims) are the subject of C31",
         "VerifyBlock is probed without a ledger: only its multi-signature stage is executed",
         "verifyHeader is probed on a LedgerStoreImp skeleton (header cache + vbftPeerInfoMap), VBFT branch"])
